@@ -381,3 +381,80 @@ fn meta_of<M: Metadata>(m: &M) -> DecOut {
         err: None,
     }
 }
+
+/// Like `decode_with` but discards the samples (only counts them), so that the memory measured
+/// around the call is the decoder's own and not the accumulated output.
+pub fn drain_with<R: Read>(r: R, kind: ReaderKind, read_size: usize) -> Result<(u64, Option<String>), String> {
+    let rs = read_size.max(1);
+    let mut n = 0u64;
+    let mut err = None;
+    match kind {
+        ReaderKind::ByteLE | ReaderKind::ByteBE => {
+            macro_rules! run {
+                ($rd:expr) => {{
+                    let mut rd = $rd.map_err(|e| e.to_string())?;
+                    let mut buf = vec![0u8; rs];
+                    loop {
+                        match rd.read(&mut buf) {
+                            Ok(0) => break,
+                            Ok(m) => n += m as u64,
+                            Err(e) if e.kind() == std::io::ErrorKind::Interrupted => continue,
+                            Err(e) => {
+                                err = Some(e.to_string());
+                                break;
+                            }
+                        }
+                    }
+                }};
+            }
+            if kind == ReaderKind::ByteBE { run!(FlacByteReader::endian(r, BigEndian)) } else { run!(FlacByteReader::endian(r, LittleEndian)) }
+        }
+        ReaderKind::Sample | ReaderKind::SampleToEnd => {
+            let mut rd = FlacSampleReader::new(r).map_err(|e| e.to_string())?;
+            loop {
+                match rd.fill_buf() {
+                    Ok([]) => break,
+                    Ok(b) => {
+                        let m = b.len();
+                        n += m as u64;
+                        rd.consume(m);
+                    }
+                    Err(e) => {
+                        err = Some(e.to_string());
+                        break;
+                    }
+                }
+            }
+        }
+        ReaderKind::SampleIter => {
+            let rd = FlacSampleReader::new(r).map_err(|e| e.to_string())?;
+            for s in rd {
+                match s {
+                    Ok(_) => n += 1,
+                    Err(e) => {
+                        err = Some(e.to_string());
+                        break;
+                    }
+                }
+            }
+        }
+        ReaderKind::Channel => {
+            let mut rd = FlacChannelReader::new(r).map_err(|e| e.to_string())?;
+            loop {
+                let m = match rd.fill_buf() {
+                    Ok(chs) => chs.first().map(|c| c.len()).unwrap_or(0),
+                    Err(e) => {
+                        err = Some(e.to_string());
+                        break;
+                    }
+                };
+                if m == 0 {
+                    break;
+                }
+                n += m as u64;
+                rd.consume(m);
+            }
+        }
+    }
+    Ok((n, err))
+}
